@@ -441,7 +441,17 @@ func runSysPlug(x *X) {
 				}
 				// (the transport reads the backend through a 4 KB buffer: only a response that fits
 				// in it whole is certain to reach the plugin in one piece)
-				if !fragment && first > L2 && len(rs.body) <= 3000 && !wantGzip && rs.framing == "cl" && got.status != 413 {
+				// (and not an event stream: for those the reverse proxy arms an immediate flush of the
+				// response head on a timer goroutine of its own; whether that flush or the first body
+				// write gets to the plugin first is the Go scheduler's choice, and once the head is
+				// out a 413 is no longer possible -- seen once in 250000 runs, not replayable)
+				eventStream := false
+				for _, kv := range rs.hdr {
+					if kv.K == "Content-Type" && strings.HasPrefix(strings.ToLower(kv.V), "text/event-stream") {
+						eventStream = true
+					}
+				}
+				if !fragment && first > L2 && len(rs.body) <= 3000 && !wantGzip && rs.framing == "cl" && !eventStream && got.status != 413 {
 					x.Violate("C14", "C14/oversized-response-not-413", "exchange %d: the first response write (%d bytes) already exceeds max_response_body=%d, client got status %d with %d bytes", ex.id, first, L2, got.status, len(got.body))
 				}
 				continue
